@@ -77,7 +77,31 @@ static void os_pbkdf2(const Args &a) {
     Ev ev("os.pbkdf2"); ev.s("kind", k).b("pw", pw).b("salt", salt).n("count", (long long)count).n("n", (long long)n);
     ev.b("out", out.get(n)).n("guard", out.guards_ok()); ev.emit();
 }
+// PBKDF2 with a long output of which only selected 32-byte blocks T_i are logged (the spec computes each
+// T_i on its own from its index): block indices beyond one byte and beyond two bytes of the counter
+static void os_pbkdf2_blocks(const Args &a) {
+    std::string k = a.str("kind");
+    bytes_t pw = a.hex("pw"), salt = a.hex("salt"); size_t n = (size_t)a.num("n"); unsigned long count = (unsigned long)a.unum("count");
+    std::vector<long long> idx = a.list("blocks");
+    InBuf pb(pw), sb(salt);
+    OutBuf out(n);
+    if (k == "pbkdf2") ascon_pbkdf2(out.p, n, pb.p, pb.n, sb.p, sb.n, count);
+    else if (k == "pbkdf2_hmac") ascon_pbkdf2_hmac(out.p, n, pb.p, pb.n, sb.p, sb.n, count);
+    else fatal("pbkdf2 kind");
+    std::ostringstream os; os << "[";
+    for (size_t j = 0; j < idx.size(); ++j) {
+        size_t i = (size_t)idx[j]; if (i < 1 || (i - 1) * 32 >= n) fatal("block %zu outside the output", i);
+        size_t len = n - (i - 1) * 32 < 32 ? n - (i - 1) * 32 : 32;
+        if (j) os << ",";
+        os << "{\"i\":" << i << ",\"t\":[";
+        for (size_t b = 0; b < len; ++b) { if (b) os << ","; os << (unsigned)out.p[(i - 1) * 32 + b]; }
+        os << "]}";
+    }
+    os << "]";
+    Ev ev("os.pbkdf2_blocks"); ev.s("kind", k).b("pw", pw).b("salt", salt).n("count", (long long)count).n("n", (long long)n).raw("blocks", os.str());
+    ev.n("guard", out.guards_ok()); ev.emit();
+}
 void reg_kdf() {
     reg("hkdf.extract", hk_extract); reg("hkdf.expand", hk_expand); reg("hkdf.poke", hk_poke); reg("hkdf.free", hk_free);
-    reg("os.hkdf", os_hkdf); reg("os.pbkdf2", os_pbkdf2);
+    reg("os.hkdf", os_hkdf); reg("os.pbkdf2", os_pbkdf2); reg("os.pbkdf2_blocks", os_pbkdf2_blocks);
 }
